@@ -91,7 +91,7 @@ var clauseKeywords = map[string]bool{
 	"props": true, "theory": true, "requires": true, "ensures": true, "exit": true, "modifies": true,
 	"ghost": true, "loop": true, "at": true, "implements": true, "allow": true, "fresh": true,
 	"assume": true, "prove": true, "note": true, "var": true, "frozen": true,
-	"call": true, "induct": true, "apply": true,
+	"call": true, "induct": true, "apply": true, "watches": true,
 }
 
 var blockRe = regexp.MustCompile(`(?s)/\*@(.*?)@\*/`)
@@ -350,6 +350,13 @@ func (b *block) addClause(kw, text string, line int) error {
 			return fmt.Errorf("call needs a function name")
 		}
 		b.clauses = append(b.clauses, &clause{kind: "call", gname: name, src: strings.TrimSpace(text[i+2:]), line: line})
+	case "watches":
+		// watches [label] <channel expression or method name> ...: every blocking select of the function with more
+		// than one case has a receive case on that channel (the actor never stops listening to it)
+		label, rest := takeLabel(text)
+		for _, a := range strings.Fields(rest) {
+			b.clauses = append(b.clauses, &clause{kind: "watches", label: label, anchor: a, src: text, line: line})
+		}
 	case "induct":
 		b.clauses = append(b.clauses, &clause{kind: "induct", gname: strings.TrimSpace(text), line: line})
 	case "apply":
